@@ -147,13 +147,17 @@ def check_c06(rr: dict, w, fkind: str) -> list[dict]:
 
 
 # ======================================================================= C07
+TS_TOL = 0.001000001
+
+
 def _ts_problem(ts, readings: set, tz_off: int) -> str | None:
     t = harness.parse_rfc3339(ts)
     if t is None:
         return "not_rfc3339"
-    if any(abs(t - r) < 0.0006 for r in readings):
+    # a millisecond-precision timestamp denotes a reading when it is that reading truncated or rounded to the millisecond
+    if any(abs(t - r) < TS_TOL for r in readings):
         return None
-    if tz_off and any(abs((t - tz_off) - r) < 0.0006 for r in readings):
+    if tz_off and any(abs((t - tz_off) - r) < TS_TOL for r in readings):
         return "local_time_labelled_utc"
     return "not_a_clock_reading"
 
@@ -200,7 +204,7 @@ def check_c07(rr: dict, w, sc: dict, truth: list[dict] | None, fkind: str, tz: s
         t = harness.parse_rfc3339(ts)
         if t is None:
             continue
-        if prev_t is not None and t < prev_t - 0.0006:
+        if prev_t is not None and t < prev_t - TS_TOL:
             out.append(V("timestamp", f"decreasing:{name}", f"{name}={ts!r} earlier than its predecessor in the stream (TZ={tz})"))
             break
         prev_t = t
@@ -222,9 +226,9 @@ def check_c07(rr: dict, w, sc: dict, truth: list[dict] | None, fkind: str, tz: s
         if e is not None and "t_begin" in e:
             ts0 = harness.parse_rfc3339(tm.get("started_at"))
             ts1 = harness.parse_rfc3339(tm.get("finished_at"))
-            if ts0 is not None and ts0 > e["t_begin"] + 0.0006:
+            if ts0 is not None and ts0 > e["t_begin"] + TS_TOL:
                 out.append(V("timestamp", "started_at_after_node_began", f"SER {k}: started_at={tm.get('started_at')} but the node began at clock {e['t_begin']}"))
-            if ts1 is not None and "t_end" in e and ts1 < e["t_end"] - 0.0006:
+            if ts1 is not None and "t_end" in e and ts1 < e["t_end"] - TS_TOL:
                 out.append(V("timestamp", "finished_at_before_node_ended", f"SER {k}: finished_at={tm.get('finished_at')} but the node ended at clock {e['t_end']}"))
         # stall fault: the duration must cover it
         stalls = [f for f in w.faults_fired if f["kind"] == "stall" and f["node"] == k and f["run"] == w.cur_run]
